@@ -51,11 +51,11 @@ class RefVec:
         self.n = n
         self.agents = self.envs[0].possible_agents
 
-    def reset(self, seed):
+    def reset(self, seed, options=None):
         out = []
         for i, e in enumerate(self.envs):
             s = None if seed is None else (seed[i] if isinstance(seed, (list, tuple)) else seed + i)
-            out.append(e.reset(seed=s))
+            out.append(e.reset(seed=s, options=options))
         return out
 
     def step(self, actions: Dict[str, np.ndarray]):
@@ -131,10 +131,13 @@ def gen_c12(rng: random.Random, tier: str) -> Dict[str, Any]:
             return rng.randrange(1000)
         return [rng.choice([0, 0, 1, rng.randrange(1000)]) for _ in range(n)]
 
-    ops = [{"op": "reset", "seed": a_seed()}]
+    def a_opts():
+        return rng.choice([None, None, None, {"episode": rng.randrange(2, 30)}])
+
+    ops = [{"op": "reset", "seed": a_seed(), "options": a_opts()}]
     for _ in range(rng.randint(3, 14 if tier == "quick" else 40)):
         if rng.random() < 0.08:
-            ops.append({"op": "reset", "seed": a_seed()})
+            ops.append({"op": "reset", "seed": a_seed(), "options": a_opts()})
         else:
             ops.append({"op": "step", "seed": rng.getrandbits(31)})
     delays = []
@@ -333,9 +336,11 @@ def _make(case, world, patched):
     return v
 
 
-def _check_reset(ctx, case, venv, ref, got, seed, loc, tag="reset") -> None:
+def _check_reset(ctx, case, venv, ref, got, seed, loc, tag="reset", options=None) -> None:
     obs, infos = got
-    want = ref.reset(seed)
+    want = ref.reset(seed, options)
+    if options:
+        ctx.probe("reset_with_options")
     for i, (o, inf) in enumerate(want):
         for a in ref.agents:
             if not _same_obs(_row(obs[a], i), o[a]):
@@ -435,9 +440,9 @@ def _run_c12(ctx, case, sched, world, patched, loc) -> None:
             ctx.op_index = oi
             case["_phase"] = op["op"]
             if op["op"] == "reset":
-                got = venv.reset(seed=op["seed"])
-                ctx.log("client", "reset", {"seed": op["seed"]})
-                _check_reset(ctx, case, venv, ref, got, op["seed"], loc)
+                got = venv.reset(seed=op["seed"], options=op.get("options"))
+                ctx.log("client", "reset", {"seed": op["seed"], "options": op.get("options")})
+                _check_reset(ctx, case, venv, ref, got, op["seed"], loc, options=op.get("options"))
                 _check_shapes(ctx, venv, got[0], n, loc)
                 obs = got[0]
             else:
